@@ -58,6 +58,9 @@ func c16CmpRelease(a, b [3]int) int {
 	return c
 }
 
+// c16TextOnly: set by the C04 totality harness, which uses the marker texts without the reference.
+var c16TextOnly bool
+
 func c16IsVersionVar(i int) bool { return i <= 2 }
 func c16IsReleaseLit(i int) bool { return i <= 2 || i == 6 || i == 7 || i >= 9 }
 
@@ -179,6 +182,9 @@ func c16Atom(k int) (text string, ref bool, ok bool) {
 			return text, c16Contains(val, lit), true
 		case "not in":
 			return text, !c16Contains(val, lit), true
+		}
+		if c16TextOnly {
+			return text, false, false // the totality harness only wants the text
 		}
 		vAssume(false) // not generated
 	}
